@@ -11,7 +11,18 @@ static unsigned grp_width(uint64_t v) { /* documented widths 1, 2, 4, 8 */
     return b <= 1 ? 1 : b <= 2 ? 2 : b <= 4 ? 4 : 8;
 }
 void harness(void) {
+#ifdef LITN
+    /* many-field instance (up to VARINT_GROUP_MAX_FIELDS = 64): literal fields of mixed widths, the last two symbolic */
+    VP_IN(uint64_t, ya);
+    VP_IN(uint64_t, yb);
+    uint64_t v[N];
+    for (unsigned i = 0; i < N; i++)
+        v[i] = (i % 4 == 0) ? 7 : (i % 4 == 1) ? 300 : (i % 4 == 2) ? 70000 : 0x100000000ull;
+    v[N - 2] = ya;
+    v[N - 1] = yb;
+#else
     VP_IN_ARR(uint64_t, v, N);
+#endif
     VP_IN_ARR(uint8_t, init, MAXSIZE);
     VP_IN_ARR(uint8_t, junk, MAXSIZE);
     VP_IN(uint8_t, k);
